@@ -10,7 +10,11 @@ What is modelled, statement by statement:
 * `RequestContextManager.__enter__` = `init_request_context`: a fresh dict `{}` becomes current, the
   token remembers the old value (`Token.MISSING` = `none`).  Event `open_`.
 * `on_request_start` / `on_request_end` (= `update_request_start/_end (time.perf_counter())`) write into the
-  dict the variable points to: start only `if "request_start" not in meta`, end unconditionally.
+  dict the variable points to.  CURRENT code (`fx = true`, since fix 65587fe): a `None` argument is ignored; the
+  start is stored if `meta.get("request_start")` is `None` (key absent or present with `None`) or later than the new
+  value — i.e. the minimum is kept; symmetrically the maximum for the end.
+  PINNED pre-fix code (`fx = false`, kept for the historical `…_pinned` witnesses): start only
+  `if "request_start" not in meta`, end unconditionally (also `None`).
   `LookupError` when the variable is unset.  Events `wireStart`, `wireEnd`.
 * `RequestContextManager.__exit__`: `reset(token)`; if the old value is not MISSING, the values
   `self.ctx.get("request_start")`, `self.ctx.get("request_end")` (Python `None` when the key is absent) are
@@ -20,7 +24,8 @@ What is modelled, statement by statement:
   `client c` = a task created where the variable is unset (AsyncIoAdapter.run → `gather`).
 
 Object identities (task names, dict names) are explicit natural numbers chosen by the caller; reusing
-a name is rejected.  `fx = true` is the *proposed patch* (min / max, `None` ignored) — the current code is `fx = false`.
+a name is rejected.  `fx = true` is the CURRENT code; `fx = false` is the code as pinned before fix 65587fe
+(first start wins / last end wins, `None` propagated) and only serves the historical witnesses.
 
 Ghost state (never read by the modelled code): `Rec.anc`, `Rec.opener`, `Rec.closed`, `St.log`, `St.late`,
 `St.emptyClose`, `St.names`, `St.tnames`.   Import-free.
@@ -102,7 +107,7 @@ inductive Err
 def upd {α : Type} (f : Nat → Option α) (i : Nat) (v : α) : Nat → Option α :=
   fun j => if j = i then some v else f j
 
-/-- `update_request_start` -/
+/-- `update_request_start`: `fx = true` current code (keep the minimum, ignore `None`), `fx = false` pre-fix code -/
 def setStart (fx : Bool) (r : Rec) (v : PyVal) : Rec :=
   if fx then
     match v with
@@ -116,7 +121,7 @@ def setStart (fx : Bool) (r : Rec) (v : PyVal) : Rec :=
     | none => { r with start := some v }
     | some _ => r
 
-/-- `update_request_end` -/
+/-- `update_request_end`: `fx = true` current code (keep the maximum, ignore `None`), `fx = false` pre-fix code -/
 def setStop (fx : Bool) (r : Rec) (v : PyVal) : Rec :=
   if fx then
     match v with
